@@ -156,7 +156,7 @@ cases = list(corpus)
 if ck.replay:
     cases = [json.load(open(ck.replay))["case"]]
 else:
-    nblocks, nrand, nbig, nsw = (260, 6000, 1500, 4000) if ck.thorough() else (70, 3000, 300, 2400)
+    nblocks, nrand, nbig, nsw = (260, 6000, 1500, 4000) if ck.thorough() else (64, 2500, 280, 2000)
     for _ in range(nblocks): gen_small_block(rng, cases)
     for _ in range(nrand): gen_random(rng, cases, False)
     for _ in range(nbig): gen_random(rng, cases, True)
@@ -191,7 +191,10 @@ API_SURFACE = [
  {"api": "DiffType = difference_type of the element iterators: std::ptrdiff_t", "called": True, "by": "all profiles"},
  {"api": "DiffType other than std::ptrdiff_t (element iterator class with difference_type int)", "called": False, "by": "does not compile, with or without a matching pair iterator: the per-thread call hands std::vector<pair>::iterator to multiway_merge_4_combined, which mixes both difference_types in std::min(size, total_size - overhang) (multiway_merge.hpp:677); compile-time limitation, nothing to run"},
  {"api": "comparator: key-only less (function object) | key-only greater on descending inputs | stateful non-default-constructible counting comparator | defaulted std::less<T>", "called": True, "by": "profiles 0,1,5 | 2 | 3 | 4"},
- {"api": "element type: 12-byte record (key, sequence, position) compared by key only, so that stability and element identity are observable; sentinel element behind every sequence", "called": True, "by": "all profiles"},
+ {"api": "element type: 12-byte trivially copyable record (key, sequence, position; copy-based loser trees) | 40-byte record > 2*sizeof(size_t) (pointer-based loser trees) that owns its key in a heap cell and whose destructor overwrites the key with INT_MIN and frees it (a comparison with a dead element is an ASan heap-use-after-free); both compared by key only, so that stability and element identity are observable", "called": True, "by": "two binaries of the same harness (default | -DC07_FAT), all profiles; about a quarter of the generated cases and half of the algorithm sweep use the fat element"},
+ {"api": "memory regime of the inputs: *_sentinels entry points: every sequence in its own heap block followed by its sentinel | other entry points, NO sentinel: every sequence in its own exactly sized heap block (overrun = ASan heap-buffer-overflow) | all sequences adjacent in one exactly sized buffer (overrun reads the next sequence: wrong output)", "called": True, "by": "entry >= 2 | layout 0 | layout 1 (drawn per case)"},
+ {"api": "every MultiwayMergeAlgorithm value (MWMA_LOSER_TREE, _COMBINED, _SENTINEL, MWMA_BUBBLE) x k = 2..9 non-empty sequences x non-sentinel entry points (parallel_multiway_merge, stable_parallel_multiway_merge) x both memory regimes x both element kinds, thread counts 1,2,3,5 leaving no chunk empty (unguarded phases run)", "called": True, "by": "gen_algo_sweep on every run (256 cases); counted per (mwma, k) in input_distribution"},
+ {"api": "tlx::parallel_mergesort / stable_parallel_mergesort (comp, num_threads 1..9,13, MWMSA_SAMPLING | MWMSA_EXACT; no merge-algorithm parameter exists: the per-thread merges use MWMA_ALGORITHM_DEFAULT) as a second consumer of the same merge kernels, both element kinds", "called": True, "by": "gen_ms ('ms' lines), judged against the (stable) sort by the Python reference; C06 owns the property"},
  {"api": "OpenMP variant of parallel_multiway_merge_base (#if defined(_OPENMP))", "called": False, "by": "the check builds without -fopenmp, as the repo's default build does; the std::thread variant is the one exercised (the two bodies are textually the same computation)"},
  {"api": "regimes: no sequences | all sequences empty | empty sequences between non-empty ones | size = 0 | size < p | p > total | one long among short sequences | heavy duplicates across split points (1..3 distinct keys)", "called": True, "by": "corpus + generator shapes 0-3"},
 ]
@@ -258,7 +261,8 @@ tsan_note = "not run in this tier"
 
 
 def run_file(binary, lines, timeout):
-    fn = os.path.join(ck.scratch, "cases_%d.txt" % len(lines))
+    import threading
+    fn = os.path.join(ck.scratch, "cases_%s_%d_%d.txt" % (os.path.basename(binary), threading.get_ident(), len(lines)))
     open(fn, "w").write("\n".join(lines) + "\n")
     return verif.sh([binary, fn], timeout=timeout, env=dict(os.environ, ASAN_OPTIONS="detect_leaks=1"))
 
@@ -359,7 +363,8 @@ else:
                 continue
             if par and (f.get("win", "").count("+") >= 2 or (f.get("win") == "?" and g_windows(model[idx]) >= 2)): distinct.add(line)
         pick = [0, len(corpus), len(todo) // 2, len(todo) - 1]
-        samples = [{"case": todo[i], "impl": impl[i][:300], "model": model[i][:300]} for i in pick if i < len(impl) and i < len(todo)]
+        samples = [{"case": todo[i], "impl": str(impl[i])[:300], "model": model[i][:300]} for i in pick if i < len(impl) and i < len(todo)]
+        if ms_cases: samples.append({"case": ms_cases[0][1][:300]})
 
     # --- ThreadSanitizer run (thorough tier): same harness, a slice of the parallel cases
     if ck.thorough() and not ck.replay:
@@ -388,7 +393,7 @@ if pr is not None and not pr["ok"]:
 ck.finish({
     "evaluations": evaluations,
     "distinct_nontrivial": len(distinct),
-    "rule": "corpus first (witnesses of every defect found), then: small inputs (<= 6 sequences, lengths <= 7, 1..6 distinct keys, empties) x EVERY size 0..total x thread counts {1,2,3,total-1,total,total+1,32,random} x both splitting requests (sampling with oversampling 1,2,10); random inputs up to 9 sequences x 200 elements with threads 1..32 and sizes at total, total-1, p-1, p, p+1, random; switch cases around minimal_k / minimal_n / force flags on all four entry points and all four merge algorithms. Each case runs on the real entry points (real threads, logging output iterator over a buffer of exactly `size` elements, ASan+UBSan) and on the extracted Coq model; compared: returned end, cursors, output (element identities for the stable variants, keys for the unstable ones), per-thread output windows, exactly-once verdict. Independently the implementation's result is judged against the property by a Python reference (sort by (key, sequence, position)). non-trivial = parallel path taken and at least two different threads wrote output; distinct = distinct case text. MWMSA_SAMPLING with size < total is generated freely (every size of the small inputs, half of the random sampling cases): the repaired code serves it with the exact splitter and so does the model.",
+    "rule": "corpus first (witnesses of every defect found and of the seeded changes), then: small inputs (<= 6 sequences, lengths <= 7, 1..6 distinct keys, empties) x EVERY size 0..total x thread counts {1,2,3,total-1,total,total+1,32,random} x both splitting requests (sampling with oversampling 1,2,10); random inputs up to 9 sequences x 200 elements with threads 1..32 and sizes at total, total-1, p-1, p, p+1, random; switch cases around minimal_k / minimal_n / force flags on all four entry points and all four merge algorithms; a sweep of every merge algorithm x k = 2..9 x non-sentinel entry points x memory regime (own exactly sized blocks / adjacent in one buffer, no sentinels) x element kind (12-byte record / 40-byte heap-owning record with poisoning destructor); (stable_)parallel_mergesort runs with both element kinds. Each case runs on the real entry points (real threads, logging output iterator over a buffer of exactly `size` elements, ASan+UBSan) and on the extracted Coq model; compared: returned end, cursors, output (element identities for the stable variants, keys for the unstable ones), per-thread output windows, exactly-once verdict. Independently the implementation's result is judged against the property by a Python reference (sort by (key, sequence, position)). non-trivial = parallel path taken and at least two different threads wrote output; distinct = distinct case text. MWMSA_SAMPLING with size < total is generated freely (every size of the small inputs, half of the random sampling cases): the repaired code serves it with the exact splitter and so does the model.",
     "samples": samples,
     "input_distribution": stats,
     "exhaustive": False,
